@@ -59,3 +59,19 @@ Theorem C17_boundary_table_sound :
     forall m c x, In (m, c, x) t -> crossing_copies (crossing_of x) = true.
 Proof. exact boundary_copies_sound. Qed.
 Print Assumptions C17_boundary_table_sound.
+
+(* ---------------- the engine-level write API (G9) ----------------
+   Gen/EngineBoundary.v is regenerated from transaction.go on every run: every
+   caller-owned document whose values can reach a stored document is cloned
+   before anything else uses it, on every path to namespace.Insert /
+   namespace.Replace (Proofs/GenEngineBoundary.v). *)
+From Lungo.Gen Require Import EngineBoundary.
+From Lungo.Proofs Require Import GenEngineBoundary.
+
+Theorem C17_source_engine_boundary : gen_engine_boundary = expected_engine_boundary.
+Proof. exact gen_engine_boundary_ok. Qed.
+Print Assumptions C17_source_engine_boundary.
+
+Theorem C17_source_engine_boundary_clones : boundary_safe gen_engine_boundary = true.
+Proof. exact gen_engine_boundary_safe. Qed.
+Print Assumptions C17_source_engine_boundary_clones.
